@@ -23,6 +23,9 @@ impl AtomicOrdering {
 #[verifier::external_body] pub fn nondet<T>() -> T { unimplemented!() }
 #[verifier::external_body] pub fn nondet_ghost_int() -> Ghost<int> { unimplemented!() }
 /// R10: `Clone` on data values is faithful.
+/// `Option::replace` (std, not specified in vstd): stores the value, returns the previous content
+pub assume_specification<T>[ Option::<T>::replace ](o: &mut Option<T>, value: T) -> (r: Option<T>)
+    ensures r == *old(o), *final(o) == Some(value);
 #[verifier::external_body] pub fn clone_val<T>(x: &T) -> (r: T) ensures r == *x { unimplemented!() }
 /// R3: `Arc::clone` yields an alias of the same object (handles are `Copy` tokens here).
 pub fn arc_clone<X: Copy>(x: &X) -> (r: X) ensures r == *x { *x }
